@@ -175,6 +175,20 @@ static void part_estimates(int thorough) {
 		lzma_mt mt = { .threads = th, .preset = p, .check = LZMA_CHECK_CRC32, .block_size = bs == 0 ? 0 : bs == 1 ? 4096 : 65536 }; snprintf(desc, sizeof desc, "mt encoder threads=%u preset=%u block_size=%llu", th, p, (unsigned long long)mt.block_size); H_CASE("c09 estimates %s", desc);
 		lzma_stream s = LZMA_STREAM_INIT; s.allocator = &AL; reset_counters(); if (lzma_stream_encoder_mt(&s, &mt) != LZMA_OK) continue; s.next_in = src; s.avail_in = sizeof src; s.next_out = cbuf; s.avail_out = sizeof cbuf; lzma_ret r; while ((r = lzma_code(&s, LZMA_FINISH)) == LZMA_OK) {} lzma_end(&s);
 		est_check("lzma_stream_encoder_mt_memusage", lzma_stream_encoder_mt_memusage(&mt), atomic_load(&peak_b)); if (atomic_load(&live_n)) FAILM("leak", "mt encoder leak"); }
+	// the threaded encoder re-initialised on the same handle with FEWER threads (same block size): what the second session holds at its
+	// peak, including anything kept from the first, must be covered by the estimate for the second session's options
+	static uint8_t bigsrc[6 << 20], bigout[1 << 20];	// zeros: six 1 MiB Blocks keep every worker and output buffer busy
+	for (uint32_t t1 = 2; t1 <= 4; t1++) for (uint32_t t2 = 1; t2 < t1; t2++) for (int bs = 0; bs < 3; bs++) { if ((unit++ % nsh) != sh) continue;
+		lzma_mt m1 = { .threads = t1, .preset = 0, .check = LZMA_CHECK_CRC32, .block_size = bs == 2 ? 1 << 20 : bs ? 65536 : 4096 }, m2 = m1; m2.threads = t2;
+		snprintf(desc, sizeof desc, "mt encoder threads=%u then re-initialised with threads=%u, block_size=%llu", t1, t2, (unsigned long long)m1.block_size); H_CASE("c09 estimates %s", desc);
+		lzma_stream s = LZMA_STREAM_INIT; s.allocator = &AL; reset_counters(); if (lzma_stream_encoder_mt(&s, &m1) != LZMA_OK) continue;
+		const uint8_t *in_ = bs == 2 ? bigsrc : src; size_t inl_ = bs == 2 ? sizeof bigsrc : sizeof src; uint8_t *out_ = bs == 2 ? bigout : cbuf; size_t outl_ = bs == 2 ? sizeof bigout : sizeof cbuf;
+		s.next_in = in_; s.avail_in = inl_; s.next_out = out_; s.avail_out = outl_; lzma_ret r; while ((r = lzma_code(&s, LZMA_FINISH)) == LZMA_OK) {}
+		if (lzma_stream_encoder_mt(&s, &m2) != LZMA_OK) { lzma_end(&s); continue; }
+		atomic_store(&peak_b, atomic_load(&live_b));	// the peak of the second session starts from what is still held
+		s.next_in = in_; s.avail_in = inl_; s.next_out = out_; s.avail_out = outl_; while ((r = lzma_code(&s, LZMA_FINISH)) == LZMA_OK) {}
+		est_check("lzma_stream_encoder_mt_memusage (second session on a reused handle)", lzma_stream_encoder_mt_memusage(&m2), atomic_load(&peak_b));
+		lzma_end(&s); if (atomic_load(&live_n)) FAILM("leak", "mt encoder leak after reuse"); }
 }
 
 // ---- threaded decoder: memlimit_threading / memlimit_stop grid ----------------------------------------------------
